@@ -513,6 +513,7 @@ type shardResult struct {
 	Violations []kit.V `json:"violations"`
 	Sample     []int   `json:"sample"`
 	ReplayOK   bool    `json:"replay_ok"`
+	ReplayDiff string  `json:"replay_diff,omitempty"`
 }
 
 func explore(r *kit.Run, dir string, sc scenario) shardResult {
@@ -545,9 +546,17 @@ func explore(r *kit.Run, dir string, sc scenario) shardResult {
 		}
 		return true
 	}
-	_, e1 := runOnce(dir, sc, nil, true)
-	_, e2 := runOnce(dir, sc, e1.Choices, true)
-	res.ReplayOK = e1.NoYield != "" || strings.Join(e1.Trace, "|") == strings.Join(e2.Trace, "|")
+	// the same schedule twice must give the same trace; a mismatch is tried again
+	// (up to three times) before the scenario is called nondeterministic, and the
+	// two traces are reported
+	for attempt := 0; attempt < 3 && !res.ReplayOK; attempt++ {
+		_, e1 := runOnce(dir, sc, nil, true)
+		_, e2 := runOnce(dir, sc, e1.Choices, true)
+		res.ReplayOK = e1.NoYield != "" || strings.Join(e1.Trace, "|") == strings.Join(e2.Trace, "|")
+		if !res.ReplayOK {
+			res.ReplayDiff = fmt.Sprintf("attempt %d\nfirst run:  %s\nsecond run: %s", attempt+1, strings.Join(e1.Trace, " | "), strings.Join(e2.Trace, " | "))
+		}
+	}
 	x.Run()
 	res.Executions, res.MaxDepth, res.Capped, res.Outcomes = x.Executions, x.MaxDepth, x.Capped, len(orders)
 	// sharing must be reachable: otherwise read locks are exclusive
@@ -734,7 +743,7 @@ func main() {
 			kit.Harness("shard result: %v", err)
 		}
 		if !sr.ReplayOK {
-			kit.Harness("nondeterministic replay in scenario %s", scs[job])
+			kit.Harness("nondeterministic replay in scenario %s\n%s", scs[job], sr.ReplayDiff)
 		}
 		tot.Executions += sr.Executions
 		if scs[job].pmode() {
